@@ -1,26 +1,9 @@
 /-
-Per-kind facts about the setters / getters, histories (`run`), and the tie to
-the translated source facts (Generated/Prefix.lean).
+Per-kind facts about the setters / getters and histories (`run`).
 -/
 import TraitsVerif.Lemmas.ResolveHier
-import TraitsVerif.Generated.Prefix
 namespace TraitsVerif.Model.Resolve
 open TraitsVerif
-
-/-- What the translator read from the working tree, in the shape of `modelFacts`. -/
-def generatedFacts : SourceFacts :=
-  { sortKey := Generated.Prefix.sortKey, sortReverse := Generated.Prefix.sortReverse
-    sortCount := Generated.Prefix.sortCount, listStoredAs := Generated.Prefix.listStoredAs
-    wildcardTest := Generated.Prefix.wildcardTest, wildcardStem := Generated.Prefix.wildcardStem
-    defaultPrefixTest := Generated.Prefix.defaultPrefixTest, mergeTest := Generated.Prefix.mergeTest
-    listAlias := Generated.Prefix.listAlias, loopCount := Generated.Prefix.loopCount
-    matchIterates := Generated.Prefix.matchIterates, matchVar := Generated.Prefix.matchVar
-    matchLhs := Generated.Prefix.matchLhs, matchOp := Generated.Prefix.matchOp
-    matchRhs := Generated.Prefix.matchRhs, matchThen := Generated.Prefix.matchThen
-    matchReturnsInLoop := Generated.Prefix.matchReturnsInLoop
-    dunderTest := Generated.Prefix.dunderTest, underscoreTest := Generated.Prefix.underscoreTest }
-
-/-! ### setters and getters per kind -/
 
 theorem setattrKind_disallow {E : Env} {t : Trait} (h : t.kind = .disallow) (d : Map Val) (n : Name)
     (v : Option Val) : setattrKind E t d n v = .error .traitError := by
